@@ -20,7 +20,7 @@
    offsets, frame counter, inner writer state), and fs is any file system (the target may exist with any contents):
    this is what makes the statements hold for every start/stop cycle of a device's life. *)
 From Coq Require Import String Ascii Arith NArith List Bool.
-From Tiff Require Import TiffEnc TiffDec SideBySide TiffProps TiffCycles TiffMain.
+From Tiff Require Import TiffEnc TiffDec SideBySide TiffProps TiffCycles TiffMain TiffSw TiffSwProofs TiffSwMain.
 Import ListNotations.
 Local Open Scope N_scope.
 
@@ -95,6 +95,86 @@ Proof. exact grouping_irrelevant. Qed.
 Print Assumptions C15_grouping.
 
 (* ------------------------------------------------------------------------------------------------ *)
+(* Short writes.  Everything above is about [run], in which a file_write puts all its bytes at the offset
+   ([apply_write]).  The code reaches that through pwrite, which may transfer fewer bytes than asked, and
+   the write-all loop of linux/platform.c:file_write.  TiffSw.v models pwrite as an oracle -- a script
+   with one answer per pwrite call (everything / at most c bytes / all but c / half / a fraction; c = 0 is
+   the zero-length result) -- and file_write as the loop the code contains; [run_sw] and [run_cycles_sw]
+   are [run] and [run_cycles] with every write going through it.  The boolean they return is "no
+   file_write gave up" (a file_write gives up at its third zero-length result; what the writers do then is
+   C16's).  [budget_ok 0 script]: never more than two zero answers between two "everything" answers --
+   a condition on the script alone that no grouping of the calls into file_write calls can violate;
+   [all_positive script]: no zero answer at all. *)
+
+(* One file_write, ANY oracle state: if it returns 1, the file is what one complete pwrite leaves. *)
+Theorem C15_file_write_all : forall o F off bs F' o',
+  file_write o F off bs = (F', true, o') -> F' = apply_write F off bs.
+Proof. exact file_write_all. Qed.
+Print Assumptions C15_file_write_all.
+
+(* ... and it does return 1, with the budget still intact for the next call, within the zero-count budget. *)
+Theorem C15_file_write_budget : forall o F off bs,
+  budget_ok 0 (os_script o) = true ->
+  exists o', file_write o F off bs = (apply_write F off bs, true, o') /\ budget_ok 0 (os_script o') = true.
+Proof. exact file_write_budget. Qed.
+Print Assumptions C15_file_write_budget.
+
+(* A whole history of HAL calls from any state, ANY script: if no file_write gave up, the device and every
+   byte of every file are those of [run] -- they do not depend on the script. *)
+Theorem C15_short_writes_any_oracle : forall fx w script ops,
+  let '(w', ok, _) := run_sw fx w (os_init script) ops in
+  ok = true -> w' = run fx w ops.
+Proof. exact run_sw_refines. Qed.
+Print Assumptions C15_short_writes_any_oracle.
+
+(* Within the zero-count budget no file_write gives up ... *)
+Theorem C15_short_writes : forall fx w script ops,
+  budget_ok 0 script = true ->
+  exists o', run_sw fx w (os_init script) ops = (run fx w ops, true, o').
+Proof. exact run_sw_budget. Qed.
+Print Assumptions C15_short_writes.
+
+(* ... in particular when every count is positive. *)
+Theorem C15_short_writes_positive : forall fx w script ops,
+  all_positive script = true ->
+  exists o', run_sw fx w (os_init script) ops = (run fx w ops, true, o').
+Proof. exact run_sw_positive. Qed.
+Print Assumptions C15_short_writes_positive.
+
+(* Hence C15_cycles (which contains round trip, chain, bounds, disjointness, metadata.json) for the files
+   written through the loop, for every script within the budget, the script running on across the cycles. *)
+Theorem C15_cycles_short_writes : forall script cs d fs,
+  budget_ok 0 script = true ->
+  dev_state d <> Running ->
+  Forall (fun c => valid_cycle (is_json d) c /\ frames_ok c) cs ->
+  snd (run_cycles_sw (d, fs) (os_init script) cs) = true /\
+  Forall2 (cycle_good (is_json d)) cs (fst (run_cycles_sw (d, fs) (os_init script) cs)).
+Proof. exact cycles_short_writes. Qed.
+Print Assumptions C15_cycles_short_writes.
+
+(* The same for ANY script, as long as no file_write gave up. *)
+Theorem C15_cycles_any_oracle : forall script cs d fs,
+  dev_state d <> Running ->
+  Forall (fun c => valid_cycle (is_json d) c /\ frames_ok c) cs ->
+  snd (run_cycles_sw (d, fs) (os_init script) cs) = true ->
+  Forall2 (cycle_good (is_json d)) cs (fst (run_cycles_sw (d, fs) (os_init script) cs)).
+Proof. exact cycles_any_oracle. Qed.
+Print Assumptions C15_cycles_any_oracle.
+
+(* C15_roundtrip through the loop. *)
+Theorem C15_roundtrip_short_writes : forall script d fs c,
+  budget_ok 0 script = true ->
+  dev_state d <> Running -> valid_cycle (is_json d) c -> frames_ok c ->
+  exists w' o' F ds,
+    run_sw all_fixes (d, fs) (os_init script) (cycle_ops c) = (w', true, o') /\
+    tif_of (is_json d) c (snd w') = Some F /\
+    decode F = Some ds /\
+    map dir_info ds = infos (c_md c) (c_frames c) /\
+    map pixels_of_info (map dir_info ds) = map pixels_of_frame (c_frames c).
+Proof. exact roundtrip_short_writes. Qed.
+Print Assumptions C15_roundtrip_short_writes.
+
+(* ------------------------------------------------------------------------------------------------ *)
 (* Non-vacuity: the hypotheses are met by reachable, non-trivial states.                             *)
 
 Definition ex_frame (id : N) : frame :=
@@ -142,4 +222,32 @@ Example ex_two_cycles_decode :
       (run_cycles (dev_init false, []) [ex_cycle1; ex_cycle2]) =
   [ Some [(3, 2, 16, 0, true); (3, 2, 16, 1, false); (3, 2, 16, 2, false)];
     Some [(3, 2, 16, 18446744073709551615, false)] ].
+Proof. vm_compute. reflexivity. Qed.
+
+(* short-write scripts: one that dribbles single bytes, answers 0 twice inside one file_write, leaves one byte,
+   halves, and answers 0 again after an "everything" -- within the budget; and one without zero answers *)
+Definition ex_script : list sw :=
+  [SwBytes 1; SwBytes 1; SwBytes 0; SwBytes 3; SwBytes 0; SwAllBut 1; SwFull; SwHalf; SwBytes 0; SwFrac 77; SwBytes 0; SwHalf; SwHalf].
+
+Example ex_script_budget : budget_ok 0 ex_script = true /\ all_positive ex_script = false /\
+                           all_positive [SwBytes 1; SwAllBut 1; SwHalf; SwFrac 3] = true.
+Proof. repeat split. Qed.
+
+(* tests, not theorems: the loop really runs (the log shows 23 pwrite calls for the 11 file_writes of the first
+   cycle on a tiff device, the first header bytes going out one at a time), the flag is true and the world is
+   the one of [run]; three zero answers in a row make a file_write give up (the flag the theorems hypothesise) *)
+Example ex_script_runs :
+  let '(w', ok, o') := run_sw all_fixes (dev_init false, []) (os_init ex_script) (cycle_ops ex_cycle1) in
+  ok = true /\ w' = run all_fixes (dev_init false, []) (cycle_ops ex_cycle1) /\
+  length (os_log o') = 23%nat /\
+  firstn 5 (rev (os_log o')) = [(0, 16, 1); (1, 15, 1); (2, 14, 0); (2, 14, 3); (5, 11, 0)].
+Proof. vm_compute. repeat split. Qed.
+
+Example ex_gives_up :
+  snd (fst (file_write (os_init [SwBytes 0; SwBytes 1; SwBytes 0; SwBytes 0]) [] 0 [1; 2; 3])) = false /\
+  budget_ok 0 [SwBytes 0; SwBytes 1; SwBytes 0; SwBytes 0] = false.
+Proof. vm_compute. split; reflexivity. Qed.
+
+Example ex_cycles_short_writes_hyp :
+  snd (run_cycles_sw (dev_init true, []) (os_init ex_script) [ex_cycle1; ex_cycle2]) = true.
 Proof. vm_compute. reflexivity. Qed.
